@@ -231,6 +231,22 @@ def run(ctx):
     }, ["files are written with the exact bytes and read by textX with universal newlines; the reference is run on the text as read"]
 
 
+def user_classes():
+    """user classes for the tree grammar; `name` of a Leaf is a read-only property (the constructor keeps the value elsewhere)"""
+    class Node:
+        def __init__(self, parent=None, name=None, head=None, items=None):
+            self.parent, self.name, self.head, self.items = parent, name, head, items
+
+    class Leaf:
+        def __init__(self, parent=None, name=None, val=None):
+            self.parent, self._name, self.val = parent, name, val
+
+        @property
+        def name(self):
+            return self._name
+    return [Node, Leaf]
+
+
 def work_tree(arg):
     g, token_lists = arg
     u = Unit()
@@ -251,6 +267,9 @@ def work_tree(arg):
     with open(gfn, "w") as fh:
         fh.write(gtext)
     mm_file = metamodel_from_file(gfn)
+    from textx import metamodel_from_str
+
+    mm_user = metamodel_from_str(gtext, classes=user_classes())
     for toks in token_lists:
         for text in dict.fromkeys(layouts(toks, ck)):
             try:
@@ -258,9 +277,9 @@ def work_tree(arg):
             except refpeg.Reject:
                 u.count("tree input rejected by the reference (layout inside a token)")
                 continue
-            for mode in ("str", "file", "str/grammar-file", "file/grammar-file"):
+            for mode in ("str", "file", "str/grammar-file", "file/grammar-file", "str/user-classes", "file/user-classes"):
                 cid = ["tree", ck, text, mode]
-                mm = mm_file if "grammar-file" in mode else mm_str
+                mm = mm_file if "grammar-file" in mode else mm_user if "user-classes" in mode else mm_str
                 mode = mode.split("/")[0]
                 try:
                     if mode == "file":
